@@ -227,6 +227,21 @@ type MockTableHandler struct {
 	name string
 }
 
+// copyRecord returns a copy of a stored record. Handing out (or keeping) the
+// caller's map lets one request encode or modify a record while another
+// request updates it: a data race on the map, which the Go runtime ends with
+// "fatal error: concurrent map iteration and map write".
+func copyRecord(record map[string]interface{}) map[string]interface{} {
+	if record == nil {
+		return nil
+	}
+	cp := make(map[string]interface{}, len(record))
+	for k, v := range record {
+		cp[k] = v
+	}
+	return cp
+}
+
 // All retrieves all records
 func (m *MockTableHandler) All() []interface{} {
 	m.db.mu.RLock()
@@ -235,7 +250,7 @@ func (m *MockTableHandler) All() []interface{} {
 	data := m.db.data[m.name]
 	result := make([]interface{}, len(data))
 	for i, v := range data {
-		result[i] = v
+		result[i] = copyRecord(v)
 	}
 	return result
 }
@@ -261,7 +276,7 @@ func (m *MockTableHandler) Get(id interface{}) interface{} {
 
 	for _, record := range m.db.data[m.name] {
 		if sameID(record["id"], id) {
-			return record
+			return copyRecord(record)
 		}
 	}
 	return nil
@@ -277,7 +292,7 @@ func (m *MockTableHandler) Create(data map[string]interface{}) map[string]interf
 		data["id"] = int64(len(m.db.data[m.name]) + 1)
 	}
 
-	m.db.data[m.name] = append(m.db.data[m.name], data)
+	m.db.data[m.name] = append(m.db.data[m.name], copyRecord(data))
 	return data
 }
 
@@ -293,7 +308,7 @@ func (m *MockTableHandler) Update(id interface{}, data map[string]interface{}) m
 				record[k] = v
 			}
 			m.db.data[m.name][i] = record
-			return record
+			return copyRecord(record)
 		}
 	}
 	return nil
@@ -349,7 +364,7 @@ func (m *MockTableHandler) Filter(column string, value interface{}) []interface{
 	result := make([]interface{}, 0)
 	for _, record := range m.db.data[m.name] {
 		if record[column] == value {
-			result = append(result, record)
+			result = append(result, copyRecord(record))
 		}
 	}
 	return result
